@@ -57,6 +57,7 @@ type Case struct {
 	Meta      bool   `json:"meta"`       // the handler sets header and trailer metadata
 	RawReply  bool   `json:"raw_reply"`  // unary/server shapes: the method replies with google.api.HttpBody (raw bytes on HTTP)
 	Encoding  string `json:"encoding"`    // gRPC / gRPC-web: grpc-encoding of the request ("" | identity | gzip)
+	SendLimit int    `json:"send_limit"`  // MaxSendMessageSize of the mux (0 = default): replies of 200 bytes do not fit a small limit
 	BadQuery  string `json:"bad_query"`   // http / httpget: a query string the method can not accept (the RPC is refused before the handler)
 	StrayBody string `json:"stray_body"` // httpget: body sent although the binding maps none ("" = none; a leading "~" = unknown length)
 }
@@ -301,6 +302,9 @@ func execute(c Case, unaryInt, streamInt, withStats bool, behaviour string) (run
 	}
 	if withStats {
 		opts = append(opts, larking.StatsOption(sr))
+	}
+	if c.SendLimit > 0 {
+		opts = append(opts, larking.MaxSendMessageSizeOption(c.SendLimit))
 	}
 	mux, err := larking.NewMux(opts...)
 	if err != nil {
@@ -659,6 +663,10 @@ func genCase(t *rapid.T) Case {
 	if (c.Transport == "http" || c.Transport == "httpget") && rapid.IntRange(0, 7).Draw(t, "badQuery") == 0 {
 		c.BadQuery = rapid.SampledFrom([]string{"nope=1", "f_int32=two", "f_string=a&nope.x=1", "r_leaf.count=1"}).Draw(t, "badQueryV")
 	}
+	if (c.Shape == "server" || c.Shape == "bidi") && rapid.IntRange(0, 5).Draw(t, "sendLimit") == 0 {
+		// replies have 3, 4, 5, ... encoded bytes: with a limit of 4 or 5 a later SendMsg is refused
+		c.SendLimit = rapid.SampledFrom([]int{4, 5}).Draw(t, "sendLimitV")
+	}
 	if c.Transport == "grpc" || c.Transport == "grpcweb" {
 		c.Encoding = rapid.SampledFrom([]string{"", "", "identity", "gzip"}).Draw(t, "encoding")
 	}
@@ -693,6 +701,9 @@ func TestProp(t *testing.T) {
 		if c.BadQuery != "" {
 			cl = append(cl, "refused-by-query")
 		}
+		if c.SendLimit > 0 {
+			cl = append(cl, "send-limit")
+		}
 		key := ""
 		if anyOpt && (c.Shape != "unary" || c.FailAfter >= 0 || small) {
 			key = fmt.Sprintf("%+v", c)
@@ -707,6 +718,7 @@ func TestPropProxied(t *testing.T) {
 	rapid.Check(t, func(t *rapid.T) {
 		c := genCase(t)
 		c.Proxied = true
+		c.SendLimit = 0 // the backend's own sends are not limited: its handler can not see the front's refusal
 		if c.Transport == "httpget" {
 			c.Transport, c.StrayBody = "http", "" // the annotation routes of the local world are not part of the backend's implicit bindings
 		}
